@@ -18,7 +18,7 @@ PROP = {
     "lean_modules": ["AxVerif.Model.BTree", "AxVerif.Model.Balance", "AxVerif.Model.Slotted", "AxVerif.Lemmas.BTree", "AxVerif.Lemmas.Balance", "AxVerif.Lemmas.Slotted"],
     "rule": "cases = operation sequences (insert/update/upsert/remove by key bytes and by tuple/search by key bytes and by tuple/scan) on a real "
             "Btree over a raw pager: orders ascending, descending, zig-zag, interleaved, random, duplicate-heavy, delete-all-then-reinsert, "
-            "churn, grow/shrink updates; key types u64, i64, text, composite (i64,text), long text keys that spill into overflow pages, text keys of mixed sizes (10..370 bytes); "
+            "churn, grow/shrink updates; key types u64, i64, text, composite (i64,text), long text keys that spill into overflow pages, text keys of mixed sizes (10..370 bytes), 16-byte binary keys with bytes on both sides of 0x80 inside the second aligned 8-byte group (btext); "
             "payloads 0 B .. 5 pages; page size {4096, 8192} x min keys {3..8} x siblings per side {1..4}; three sequences of ~2000 operations "
             "build trees of height >= 4. Plus the code's comparator on pairs of realised keys, and split_cells / "
             "compute_best_cell_distribution on random size vectors. All derived from VERIF_SEED. Non-trivial = a sequence of >= 20 "
